@@ -56,3 +56,10 @@ pub fn scenarios(prop: &str, tier: Tier) -> Vec<ScenarioDef> {
         _ => Vec::new(),
     }
 }
+
+pub fn seq_configs(prop: &str, tier: Tier) -> Vec<crate::seqx::Config> {
+    match prop {
+        "C10" => crate::c10::configs(tier),
+        _ => Vec::new(),
+    }
+}
